@@ -4,7 +4,7 @@ use serde_json::{Value as J, json};
 use std::io::Write;
 use std::process::{Command, Stdio};
 
-fn val_json(v: &J) -> J {
+pub fn val_json(v: &J) -> J {
     match v["t"].as_str().unwrap() {
         "null" => J::Null,
         "int" => json!(v["v"].as_i64().unwrap() as f64),
@@ -28,7 +28,7 @@ fn source_text(s: &J) -> String {
     }
 }
 
-fn stmt_text(st: &J) -> String {
+pub fn stmt_text(st: &J) -> String {
     let n = st["n"].as_str().unwrap_or("");
     match st["k"].as_str().unwrap() {
         "outin" => format!("output {} = inputs.{}", n, st["x"].as_str().unwrap()),
